@@ -60,6 +60,12 @@ def gen_cases(rng, tier):
         tab = cfg.Table(c)
         c['reads_as'] = {n: cfgprop.mixed_case(rng, n) for n in tab.names}
         c['probe_first'] = (k % 4 == 3)      # built without a connection, looked at, then attached (the launch() path)
+        if c['probe_first'] and k % 8 == 7:
+            af = []
+            for n in tab.names:
+                if rng.random() < 0.5:
+                    af.append([n, [rng.choice(cfgprop.items_for(tab, n))] if n in tab.lists else rng.choice(cfgprop.SCALARS[n])])
+            c['assign_first'] = af
         yield c
 
 
